@@ -40,7 +40,10 @@ harness!(c06_set_2, 5, { c06_on::<S4>(set_of::<4>(2), true); });
 //@ tier=thorough
 harness!(c06_set_3, 6, { c06_on::<S4>(set_of::<4>(3), true); });
 harness!(c06_withbot_none, 4, { c06_on::<WithBot<S4>>(WithBot::new(None), false); });
+// (WithBot::atomize = Option::into_iter().flat_map(boxed atomize): minutes in CBMC since CapSet lost its niche)
+//@ heavy=1 tier=thorough
 harness!(c06_withbot_some_empty, 4, { c06_on::<WithBot<S4>>(WithBot::new(Some(set_of::<4>(0))), false); });
+//@ heavy=1 tier=thorough
 harness!(c06_withbot_some_2, 5, { c06_on::<WithBot<S4>>(WithBot::new(Some(set_of::<4>(2))), true); });
 harness!(c06_withtop_none, 4, { c06_on::<WithTop<S4>>(WithTop::new(None), true); });
 harness!(c06_withtop_some_empty, 4, { c06_on::<WithTop<S4>>(WithTop::new(Some(set_of::<4>(0))), false); });
